@@ -36,6 +36,23 @@ Theorem C15_threshold_ignores_the_largest_region : forall (rest : list Z) (big b
   (forall y, In y rest -> (0 <= y)%Z) -> (zmax rest <= big)%Z -> (big <= big')%Z -> keeps (big :: rest) x = keeps (big' :: rest) x.
 Proof. exact threshold_ignores_the_largest. Qed.
 
+(* mesh edges and flags of create_lattice (before its clean-up passes) *)
+Theorem C15_one_mesh_edge_per_vertex_pair : forall cells, nodup_sym (edges_of_cells cells).
+Proof. exact edges_no_duplicates. Qed.
+Theorem C15_every_contour_step_has_its_edge : forall cells c p, In c cells -> In p (cell_pairs c) ->
+  pair_in (fst p) (snd p) (edges_of_cells cells) = true.
+Proof. exact edges_complete. Qed.
+Theorem C15_no_other_mesh_edge : forall cells e, In e (edges_of_cells cells) -> exists c, In c cells /\ In e (cell_pairs c).
+Proof. exact edges_sound. Qed.
+Theorem C15_border_cell_has_a_private_vertex : forall cells c, In c cells -> is_border cells c = true ->
+  exists v, In v c /\ forall d, In d cells -> In v d -> d = c.
+Proof. exact border_vertex_is_private. Qed.
+Theorem C15_border_flag_spec : forall cells c, is_border cells c = true <-> exists v, In v c /\ length (filter (memZ v) cells) = 1%nat.
+Proof. exact is_border_spec. Qed.
+Theorem C15_removed_cell_shares_nothing : forall cells c, In c cells -> is_isolated cells c = true ->
+  forall v d, In v c -> In d cells -> In v d -> d = c.
+Proof. exact isolated_shares_nothing. Qed.
+
 (* six unit squares, one 10 x 10 region and one 30 x 30 region: the two large ones are dropped, the unit squares stay, whatever the order *)
 Example C15_filter_drops_the_oversized :
   let sq (x y s : Z) := [(x, y); (x + s, y); (x + s, y + s); (x, y + s)]%Z in
@@ -57,3 +74,9 @@ Print Assumptions C15_contour_area_start_pixel.
 Print Assumptions C15_contour_area_sense.
 Print Assumptions C15_filter_commutes_with_symmetries_and_padding.
 Print Assumptions C15_threshold_ignores_the_largest_region.
+Print Assumptions C15_one_mesh_edge_per_vertex_pair.
+Print Assumptions C15_every_contour_step_has_its_edge.
+Print Assumptions C15_no_other_mesh_edge.
+Print Assumptions C15_border_cell_has_a_private_vertex.
+Print Assumptions C15_border_flag_spec.
+Print Assumptions C15_removed_cell_shares_nothing.
